@@ -19,6 +19,7 @@ inductive Kind
   | s2Wrong
   | s2Self
   | s2Stray
+  | untrusted                                        -- the sender's certificate is on the receiver's blocklist NOW
   deriving Repr, Inhabited
 
 def classifyDeliver (w : Net) (h : Handle) (src to : Nat) : Kind :=
@@ -27,6 +28,10 @@ def classifyDeliver (w : Net) (h : Handle) (src to : Nat) : Kind :=
     match w.node? creator with
     | none => .other
     | some cn =>
+      let blockedNow := match info with
+        | .s1 _ _ _ ver => nd.blocked.contains (certIdOf creator ver)
+        | .s2 _ _ _ _ ver _ => nd.blocked.contains (certIdOf creator ver)
+      if blockedNow then .untrusted else
       match info with
       | .s1 _ _ time ver =>
         let cert := certAddrsOf cn.cfg ver
@@ -109,6 +114,8 @@ def c09 (c : Ctx) (k : Kind) : String :=
     if fresh.all (fun t => t.2 == cert) then "ok" else "bad c09-new-tunnel-not-from-certificate"
   | .s2Wrong => if fresh.isEmpty then "ok" else "bad c09-wrong-responder-installed"
   | .s1Self | .s2Self => if fresh.isEmpty then "ok" else "bad c09-self-handshake-installed"
+  -- a completion installs only a certificate the CURRENT trust store accepts (config reloads included)
+  | .untrusted => if fresh.isEmpty then "ok" else "bad c09-complete-with-untrusted-cert"
   | _ => if fresh.isEmpty then "ok" else "bad c09-tunnel-without-completed-handshake"
 
 /-- C10: replayed / older first messages do not create or replace tunnels. -/
@@ -187,6 +194,15 @@ def c31 (c : Ctx) (k : Kind) (res : String) (swapAllowed : Option Bool) (peerPai
     if fresh.all (fun t => peerPairs.contains (t.2, t.1)) then "ok" else "bad c31-initiator-tunnel-unpaired"
   | _ => "ok"
 
+/-- C31, connection-manager checks in a race: a tunnel may only be deleted by a traffic check if it saw no
+inbound traffic at this check AND was already marked by an earlier quiet check since its last inbound traffic
+(`allowed`), or its peer certificate is blocklisted. `li` is the checked tunnel, `paired` says that it was this
+node's primary and the peer's primary was its mirror (the pair the race converged to). -/
+def c31check (c : Ctx) (li : Nat) (allowed paired : Bool) : String :=
+  let held := ((inner c.implI).filterMap indexPairOf).any (·.1 == li)
+  if held || allowed then "ok"
+  else if paired then "bad c31-matching-pair-lost" else "bad c31-live-tunnel-deleted"
+
 def tagOf (k : Kind) (op : Op) (res : String) : String :=
   match k with
   | .s1Fresh _ => "s1:fresh"
@@ -197,6 +213,7 @@ def tagOf (k : Kind) (op : Op) (res : String) : String :=
   | .s2Wrong => "s2:wrong-responder"
   | .s2Self => "s2:self"
   | .s2Stray => "s2:stray"
+  | .untrusted => "hs:untrusted-cert"
   | .other =>
     match op with
     | .lh .. => "triv:lh"
@@ -207,6 +224,8 @@ def tagOf (k : Kind) (op : Op) (res : String) : String :=
     | .send .. => "send"
     | .del .. => s!"del:{res}"
     | .swap .. => s!"swap:{res}"
+    | .cmcheck .. => s!"cmcheck:{res}"
+    | .block .. => "block"
     | _ => "other"
 
 end Nebula.Spec.HsManager
